@@ -173,7 +173,18 @@ func handleViolation(t *testing.T, prop *Prop, plan *Plan, res *Result) {
 // quietSUT sends the SUT's glog output to /dev/null (os.Stderr as a Go
 // variable), while runtime panics still reach the real fd 2 captured by the
 // driver. glog output is never an oracle input.
+var configureGlog func(verbosity int)
+
 func quietSUT() {
+	if configureGlog != nil {
+		lv, _ := strconv.Atoi(os.Getenv("VERIF_SUTLOG"))
+		configureGlog(lv)
+	}
+	// should glog still open log files, they go to the scratch tree, never to /tmp
+	logDir := WorkRoot() + "/glog"
+	if os.MkdirAll(logDir, 0755) == nil {
+		_ = flag.Set("logdir", logDir)
+	}
 	if lv := os.Getenv("VERIF_SUTLOG"); lv != "" {
 		_ = flag.Set("logtostderr", "true")
 		_ = flag.Set("v", lv)
